@@ -156,6 +156,7 @@ def iradon_torch(
         val1 = torch.gather(filtered_i, 1, t1.view(B, -1)).view(B, output_size, output_size)
 
         proj = (1 - w) * val0 + w * val1
+        proj = proj * ((t_idx >= 0) & (t_idx <= N - 1))  # zero outside the detector
         recon += proj
 
     if circle:
